@@ -291,7 +291,7 @@ QueryPairsReplace(raw) ==
   LET pieces == SelectSeq(Split(raw, AMP), LAMBDA p : p # <<>>) IN
   [i \in 1..Len(pieces) |-> LET pr == Partition(pieces[i], EQ) IN <<UnquoteReplace(pr[1]), UnquoteReplace(pr[3])>>]
 StrTv(t) == [t |-> "str", s |-> t]
-UpdateQuery(be, u, q) ==
+UpdateQueryWith(dev, be, u, q) ==
   IF q.form = "kwargs" /\ q.pairs = <<>> THEN EXC("ValueError")
   ELSE IF q.form = "none" THEN OK(Url(u.scheme, u.netloc, u.path, <<>>, u.fragment))
   ELSE IF ~QueryTruthy(q) THEN OK(u)
@@ -302,11 +302,12 @@ UpdateQuery(be, u, q) ==
        (LET new == ParseQsl(q.s) IN
         IF IsGray(new) THEN GRAY
         ELSE LET newTv == [i \in 1..Len(new.ok) |-> <<new.ok[i][1], StrTv(new.ok[i][2])>>]
-                 r == PairsText(be, UpdatePairsSeq(oldTv, newTv), 1, FALSE) IN
+                 r == PairsText(be, UpdatePairsSeqWith(dev, oldTv, newTv), 1, FALSE) IN
              IF IsOK(r) THEN OK(Url(u.scheme, u.netloc, u.path, JoinWith(r.ok, AMP), u.fragment)) ELSE r)
-  ELSE LET merged == UpdatePairsSeq(oldTv, q.pairs)
+  ELSE LET merged == UpdatePairsSeqWith(dev, oldTv, q.pairs)
            r == PairsText(be, merged, 1, q.form \in {"mapping", "multidict", "kwargs"}) IN
        IF IsOK(r) THEN OK(Url(u.scheme, u.netloc, u.path, JoinWith(r.ok, AMP), u.fragment)) ELSE r
+UpdateQuery(be, u, q) == UpdateQueryWith(Dev_MultiDictUpdateIndexShift, be, u, q)
 WithoutQueryParams(be, u, keys) ==
   LET old == ParseQsl(u.query) IN
   IF IsGray(old) THEN GRAY
